@@ -212,6 +212,14 @@ func runC19(rc *RunCtx) {
 			}
 		})
 	}
+	if rc.Chance(0.6) {
+		// role overlap: a registered provider is also a storage customer (same address under two record kinds)
+		pv := w.provs[rc.Intn(len(w.provs))]
+		qStorage = append(qStorage, func() {
+			w.tx(pv, "storage.BuyStorage", &storagetypes.MsgBuyStorage{Creator: w.bech(pv), ForAddress: w.bech(pv),
+				DurationDays: int64(30 + rc.Intn(300)), Bytes: int64(1+rc.Intn(50)) * 1_000_000_000, PaymentDenom: "ujkl"})
+		})
+	}
 	nFiles := (2 + rc.Intn(3)) * scale
 	proversOf := map[*WFile][]int{}
 	var files []*WFile
